@@ -186,12 +186,27 @@ class BaseOverlay:
                 collection = HandlerCollection(handlers)
             else:
                 collection = curr.plus(handlers)
-            self.reset = HandlerCollection.current.set(collection)
+            self._entered = getattr(self, "_entered", [])
+            self._entered.append(handlers)
+            HandlerCollection.current.set(collection)
             return collection
 
     def __exit__(self, typ, exc, tb):
         if self.handlers:
-            HandlerCollection.current.reset(self.reset)
+            # Overlays are not necessarily exited in the reverse order they
+            # were entered (e.g. global probes), so we cannot restore the
+            # collection that was current when we entered: remove exactly
+            # the pairs this overlay added from whatever is current now.
+            mine = self._entered.pop()
+            curr = HandlerCollection.current.get()
+            remaining = [
+                pair
+                for pair in (curr.handler_pairs if curr else [])
+                if not any(pair is p for p in mine)
+            ]
+            HandlerCollection.current.set(
+                HandlerCollection(remaining) if remaining else None
+            )
 
 
 class Overlay(BaseOverlay):
